@@ -133,3 +133,124 @@ Theorem c17_monotone : forall st id rq st' rq' status o name g d all,
   snd (dr_cursor rq') <= lenN all /\
   (stale (d_log d) (g_cursor g) = false -> snd (g_cursor g) <= snd (dr_cursor rq')).
 Proof. exact shared_monotone. Qed.
+
+(** C17 at the level of whole runs (ghost [gfwd], hypotheses [no_rewind_b] / [rejoin_fresh_b]:
+    Router/SharedRun.v; proofs: Router/SharedRun*.v). *)
+From Coq Require Import Sorted.
+From Rumqtt Require Import Router.ExactInv Router.SharedRun Router.SharedRunThm.
+From Rumqtt Require Import Router.Model Router.RunDefs.
+
+Theorem c17_ghost_step : forall st o, drop3 (step_g st o) = step st o.
+Proof. exact step_g_state. Qed.
+
+Theorem c17_ghost_step_with : forall st orc o, drop3 (step_with_g st orc o) = step_with st orc o.
+Proof. exact step_with_g_state. Qed.
+
+Theorem c17_ghost_consume_loop : forall id fuel st requests skipped,
+  drop2 (consume_loop_g fuel st id requests skipped) = consume_loop fuel st id requests skipped.
+Proof. exact consume_loop_g_state. Qed.
+
+Theorem c17_no_rewind_b_spec : forall st ops, no_rewind_b st ops = true <-> no_rewind st ops.
+Proof. exact no_rewind_b_spec. Qed.
+
+Theorem c17_rejoin_fresh_b_spec : forall st ops, rejoin_fresh_b st ops = true <-> rejoin_fresh st ops.
+Proof. exact rejoin_fresh_b_spec. Qed.
+
+Theorem c17_no_rejoin_create_fresh : forall st ops, no_rejoin_create st ops -> rejoin_fresh st ops.
+Proof. exact no_rejoin_create_fresh. Qed.
+
+Theorem c17_bounded_b_spec : forall st, bounded_b st = true -> Bounded st.
+Proof. exact bounded_b_spec. Qed.
+
+Theorem c17_at_most_once : forall cfg st0 ops st',
+  cf_max_outgoing cfg < B62 -> init cfg = Ok st0 -> run st0 ops = Ok st' -> Bounded st' ->
+  no_rewind_b st0 ops = true -> rejoin_fresh_b st0 ops = true ->
+  forall name, StronglySorted N.lt (offs_of name (gfwd st0 ops)) /\ NoDup (offs_of name (gfwd st0 ops)).
+Proof. exact run_at_most_once. Qed.
+
+Theorem c17_member_only : forall cfg st0 ops st',
+  init cfg = Ok st0 -> run st0 ops = Ok st' ->
+  forall name g client off, In (name, g, client, off) (gfwd_full st0 ops) ->
+    current_client g = Some client /\ In client (g_clients g).
+Proof. exact run_member_only_from_init. Qed.
+
+Theorem c17_member_order : forall cfg st0 ops st',
+  cf_max_outgoing cfg < B62 -> init cfg = Ok st0 -> run st0 ops = Ok st' -> Bounded st' ->
+  no_rewind_b st0 ops = true -> rejoin_fresh_b st0 ops = true ->
+  forall name client, StronglySorted N.lt (offs_of_member name client (gfwd st0 ops)).
+Proof. exact run_member_order. Qed.
+
+Theorem c17_hypotheses_hold :
+  match init C15Example.cfg0 with
+  | Ok st0 =>
+      match run st0 C17Example.ops with
+      | Ok st' =>
+          bounded_b st' = true /\
+          no_rewind_b st0 C17Example.ops = true /\ rejoin_fresh_b st0 C17Example.ops = true /\
+          gfwd st0 C17Example.ops = [([103;47;116], [97], 0); ([103;47;116], [98], 1); ([103;47;116], [97], 2)]
+      | _ => False
+      end
+  | _ => False
+  end.
+Proof. exact C17RunExample.hypotheses_hold. Qed.
+
+Theorem c17_rewind_witness :
+  match init C15Example.cfg0 with
+  | Ok st0 =>
+      (exists st', run st0 C17RunExample.rewind_ops = Ok st') /\
+      gfwd st0 C17RunExample.rewind_ops =
+        [([103;47;116], [97], 0); ([103;47;116], [98], 1);
+         ([103;47;116], [98], 0); ([103;47;116], [98], 1); ([103;47;116], [98], 2)] /\
+      no_rewind_b st0 C17RunExample.rewind_ops = false /\
+      map gh_rewind (ghosts st0 C17RunExample.rewind_ops) = repeat false 20 ++ [true] ++ repeat false 10 /\
+      rejoin_fresh_b st0 C17RunExample.rewind_ops = true /\ no_rejoin_create_b st0 C17RunExample.rewind_ops = true
+  | _ => False
+  end.
+Proof. exact C17RunExample.rewind_witness. Qed.
+
+Theorem c17_rewind_breaks_at_most_once :
+  match init C15Example.cfg0 with
+  | Ok st0 => ~ NoDup (offs_of [103;47;116] (gfwd st0 C17RunExample.rewind_ops))
+  | _ => False
+  end.
+Proof. exact C17RunExample.rewind_breaks_at_most_once. Qed.
+
+Theorem c17_stale_rejoin_witness :
+  match init C15Example.cfg0 with
+  | Ok st0 =>
+      (exists st', run st0 C17RunExample.rejoin_ops = Ok st') /\
+      gfwd st0 C17RunExample.rejoin_ops =
+        [([103;47;116], [98], 0); ([103;47;116], [98], 1);
+         ([103;47;116], [97], 0); ([103;47;116], [97], 1)] /\
+      no_rewind_b st0 C17RunExample.rejoin_ops = true /\
+      rejoin_fresh_b st0 C17RunExample.rejoin_ops = false /\
+      map gh_rejoin (ghosts st0 C17RunExample.rejoin_ops) = repeat [] 20 ++ [[([103;47;116], 0)]] ++ repeat [] 4
+  | _ => False
+  end.
+Proof. exact C17RunExample.stale_rejoin_witness. Qed.
+
+Theorem c17_stale_rejoin_breaks_at_most_once :
+  match init C15Example.cfg0 with
+  | Ok st0 => ~ NoDup (offs_of [103;47;116] (gfwd st0 C17RunExample.rejoin_ops))
+  | _ => False
+  end.
+Proof. exact C17RunExample.stale_rejoin_breaks_at_most_once. Qed.
+
+Theorem c17_takeover_is_in_scope :
+  match init C15Example.cfg0 with
+  | Ok st0 =>
+      (exists st', run st0 C17RunExample.takeover_ops = Ok st') /\
+      gfwd st0 C17RunExample.takeover_ops = [([103;47;116], [97], 0); ([103;47;116], [97], 1)] /\
+      no_rewind_b st0 C17RunExample.takeover_ops = true /\ rejoin_fresh_b st0 C17RunExample.takeover_ops = true /\
+      no_rejoin_create_b st0 C17RunExample.takeover_ops = false
+  | _ => False
+  end.
+Proof. exact C17RunExample.takeover_is_in_scope. Qed.
+
+Theorem c17_ghost_event : forall st id rq st' name g client off,
+  In (name, g, client, off) (fdd_ghost st id rq st') <->
+  dr_group rq = Some name /\ al_get str_eqb name (r_groups st) = Some g /\
+  exists o, slab_get (r_obufs st) id = Some o /\ o_client o = client /\
+    exists seg p pr, In (NForward (Some (seg, off)) p pr)
+                        (skipn (length (link_out st (o_link o))) (link_out st' (o_link o))).
+Proof. exact fdd_ghost_event. Qed.
